@@ -33,6 +33,8 @@ Bad == IF l = 1 \/ Tr[l-1].ev # "Detect" THEN {}
                   THEN {"FileHoldsFailingRecords"} ELSE {})
             \cup (IF e.inputchanged # (input = "extended") THEN {"InputUnchanged"} ELSE {})
             \cup (IF e.raised = "none" THEN {} ELSE {"NoError"})
+            \* measured on the outputs themselves (returned frame, in-place columns): count = number of false flags
+            \cup (IF e.rowcounts_ok THEN {} ELSE {"OutputCountsAreFalseFlags"})
 Conforms == Bad = {} \/ PrintT(ToJson([line |-> l - 1, tid |-> Tr[l-1].tid, bad |-> Bad]))
 Consumed == PrintT(ToJson([consumed |-> TLCGet("distinct"), lines |-> Len(Tr)]))
 =============================================================================
